@@ -49,7 +49,7 @@ def main():
     if sel:
         names = [n for n in names if any(s in n or s == json.load(open('/verif/selftest/%s/expect.json' % n))['prop'] for s in sel)]
     bad = 0
-    with concurrent.futures.ThreadPoolExecutor(max_workers=4) as ex:
+    with concurrent.futures.ThreadPoolExecutor(max_workers=2) as ex:
         for name, ok, msg in ex.map(run_one, names):
             print(('PASS ' if ok else 'FAIL ') + name + ': ' + msg)
             bad += 0 if ok else 1
